@@ -9,7 +9,7 @@ import re
 
 from ..charset import CS, WHITESPACE
 from ..common import lib_reachable, short, where
-from ..exprs import strip
+from ..exprs import mentions, strip
 from ..grammar import GrammarError
 from ..charset import Unknown
 from ..mirlib import Expr, Program, expr_str
@@ -78,6 +78,27 @@ def run(run):
                         run.bad("C08.S4", "server-wraps-output", where(bad[0]), "the handler post-processes the svg string before returning it")
                     else:
                         run.ok("C08.S4", "handler returns svgbob::to_svg(..) unmodified", where(t))
+        if not found:
+            # combinator form (`from_utf8(..).map(svgbob::to_svg).map_err(..)`): the conversion is handed over as a function
+            # item, so the returned Result is expanded into its alternatives; every Ok payload must be the call itself
+            from ..exprs import expand_combinators, simplify
+            for p in hb:
+                if not p.endswith("text_to_svgbob::{closure#0}"):
+                    continue
+                rets = [strip(r) for r in Expr(prog, p).returns()]
+                ready = [r for r in rets if r[0] == "agg" and r[2] == "Ready"]
+                if len(ready) != 1:
+                    continue
+                v = strip(simplify(expand_combinators(prog, ready[0][3][0][1])))
+                alts = [strip(a) for a in (v[1] if v[0] == "phi" else [v])]
+                oks = [a for a in alts if a[0] == "agg" and a[2] == "Ok"]
+                if oks and any(mentions(a, lambda z: isinstance(z, tuple) and z[:2] == ("call", "svgbob::to_svg")) for a in oks):
+                    found = True
+                    wrapped = [a for a in oks if not (strip(a[3][0][1])[0] == "call" and strip(a[3][0][1])[1] == "svgbob::to_svg")]
+                    if wrapped or len(oks) != len([a for a in alts if a[0] != "agg" or a[2] != "Err"]):
+                        run.bad("C08.S4", "server-wraps-output", where(prog.bodies[p]), "the handler post-processes the svg string before returning it: `%s`" % expr_str(wrapped[0] if wrapped else v)[:120])
+                    else:
+                        run.ok("C08.S4", "handler returns svgbob::to_svg(..) unmodified", where(prog.bodies[p]), "combinator form")
         if not found:
             run.bad("C08.S4", "server-no-to_svg", where(prog.bodies[hb[0]]), "the POST handler does not call svgbob::to_svg")
 
